@@ -397,7 +397,7 @@ def list_values():
 POOL = [(0, 0), (False, False), (0.0, 0.0), ("", ""), ("1e2", 100.0), ("3", 3), ("abc", "abc"), ("[1, 2]", [1, 2]), (4, 4), (60.5, 60.5), ("-7", -7), ("2.5e-3", 0.0025)]
 
 
-def _same(g, w):
+def _same_typed(g, w):
     return (g is w) or (type(g) is type(w) and g == w)
 
 
@@ -418,7 +418,7 @@ def list_pairs():
         want = [POOL[i][1] for i in combo] + [sym]
         proc.set(key, list(given))
         got = proc.get(key)
-        if not (isinstance(got, list) and len(got) == len(want) and all(_same(g, w) for g, w in zip(got, want))):
+        if not (isinstance(got, list) and len(got) == len(want) and all(_same_typed(g, w) for g, w in zip(got, want))):
             bad.append(list(combo))
     vx.prove("C08/set/list_values/combinations", not bad, first_bad=str(bad[:3]))
 
@@ -598,10 +598,14 @@ def eval_entry_crosshair(tier, seed, maxlen, timeout):
         rec["observed"] = {}
     elif "confirmed over all paths" in out.lower():
         rec["verdict"] = "unsat"
+    elif "not confirmed" in out.lower() or "unable to meet precondition" in out.lower():
+        # no counterexample found within the budget: bug hunting only, the evidence says so (exhaustive: false)
+        rec["verdict"] = "unknown"
+        rec["info"]["note"] = "no counterexample within the budget (not exhaustive): inconclusive"
     else:
-        # "Not confirmed" / timeout: no counterexample found within the budget — reported as explored, not as a proof
-        rec["verdict"] = "unsat"
-        rec["info"]["note"] = "no counterexample within the budget (not exhaustive)"
+        # the tool did not report at all (timeout of the subprocess, crash, not installed): inconclusive
+        rec["verdict"] = "unknown"
+        rec["info"]["note"] = "CrossHair produced no verdict"
     return {"obligations": [rec], "paths": 1, "queries": 1, "solver_time_s": round(time.time() - t0, 1), "reached": {rec["id"]: 1}, "exhaustive": False,
             "cap_hit": "crosshair is bug-hunting only"}
 
@@ -729,7 +733,7 @@ def replay(oid, kwargs, model, data):
             want = [POOL[i][1] for i in combo] + [xv]
             proc.set("pipeline.photon_collection.m1.arguments.opt", list(given))
             got = proc.get("pipeline.photon_collection.m1.arguments.opt")
-            if not (isinstance(got, list) and len(got) == len(want) and all(_same(g, w) for g, w in zip(got, want))):
+            if not (isinstance(got, list) and len(got) == len(want) and all(_same_typed(g, w) for g, w in zip(got, want))):
                 return True, {"assigned": repr(given), "read_back": repr(got), "denotes": repr(want)}
         return False, {}
     if fn == "list_values":
